@@ -76,7 +76,8 @@ func ids(ms []handler.Message) []int {
 
 // ---- sequential
 
-// SeqCase: Ops[i] >= 0 means "add that many messages", -1 means "snapshot".
+// SeqCase: Ops[i] >= 0 means "add that many messages", -1 means "snapshot", -2 "add the message that was
+// added last once more" (a base station that repeats its position frame byte for byte).
 type SeqCase struct {
 	Cap int   `json:"capacity"`
 	Ops []int `json:"ops"`
@@ -116,6 +117,18 @@ func checkSeq(c SeqCase, o *stats.Obs) error {
 					o.Key = "over-capacity"
 					return fmt.Errorf("capacity %d: queue holds %d items after %d additions (step %d)", c.Cap, n, next-1, step)
 				}
+			}
+			continue
+		}
+		if op == -2 {
+			if next > 1 {
+				q.Add(msg(next - 1))
+				model = append(model, next-1)
+				if len(model) > c.Cap {
+					model = model[1:]
+					evicted = true
+				}
+				o.Class("identical-message-added-again")
 			}
 			continue
 		}
@@ -248,6 +261,12 @@ func genLong(t *rapid.T) SeqCase {
 			c.Ops = append(c.Ops, -1)
 			continue
 		}
+		if rapid.IntRange(0, 4).Draw(t, "repeat") == 0 {
+			for r := rapid.IntRange(1, 5).Draw(t, "nRepeats"); r > 0; r-- {
+				c.Ops = append(c.Ops, -2)
+			}
+			continue
+		}
 		k := rapid.SampledFrom([]int{1, 1, 2, c.Cap - 1, c.Cap, c.Cap + 1, 3 * c.Cap, 100, 700}).Draw(t, "adds")
 		if k < 0 {
 			k = 0
@@ -266,6 +285,17 @@ func genLong(t *rapid.T) SeqCase {
 var propLong = stats.Prop(R, "long", genLong, checkSeq)
 
 func TestLong(t *testing.T) { rapid.Check(t, propLong) }
+
+// Several independent queues, each used by its own goroutine only, at the same time.
+func genLongSmall(t *rapid.T) SeqCase {
+	c := genLong(t)
+	c.StartIndex = 0
+	return c
+}
+
+var propParallel = stats.ParallelProp(R, "parallel", genLongSmall, checkSeq, 4)
+
+func TestParallel(t *testing.T) { rapid.Check(t, propParallel) }
 
 // ---- concurrent
 
